@@ -1234,7 +1234,13 @@ impl ConfigState {
             tags: front.tags.clone(),
         };
         let before = tcp_frontends.len();
-        if tcp_frontends.contains(&tcp_frontend) {
+        // `remove_tcp_frontend` identifies a frontend by (cluster, address):
+        // a second frontend on the same address that differs only by its tags
+        // would be removed together with the first one
+        if tcp_frontends
+            .iter()
+            .any(|f| f.address == tcp_frontend.address)
+        {
             debug_assert_eq!(
                 tcp_frontends.len(),
                 before,
@@ -1304,7 +1310,11 @@ impl ConfigState {
             address: front.address.into(),
             tags: front.tags.clone(),
         };
-        if udp_frontends.contains(&udp_frontend) {
+        // same identity rule as for TCP frontends: (cluster, address)
+        if udp_frontends
+            .iter()
+            .any(|f| f.address == udp_frontend.address)
+        {
             return Err(StateError::Exists {
                 kind: ObjectKind::UdpFrontend,
                 id: format!("{udp_frontend:?}"),
